@@ -164,9 +164,9 @@ def rw_remove_workload(ver, maxbuf):
     ops = [{"op": "open"}]
     for nm in ("d", "m"):
         ops += [{"op": "remove_stream", "name": nm}, {"op": "remove_stream", "name": nm}, {"op": "exists", "name": nm}]
-    for nm, n in (("b", 4500), ("c", 4500), ("s", 100), ("t", 100)):
+    for nm, n in (("b", 4500), ("c", 4500), ("e", 4500), ("s", 100), ("t", 100), ("u", 200)):
         ops += [{"op": "create_stream", "name": nm}, {"op": "create_stream", "name": nm}, w(n), {"op": "position"}] + FL + [{"op": "close"}]
-    for nm in ("b", "c", "s", "t", "bar", "n"):
+    for nm in ("b", "c", "e", "s", "t", "u", "bar", "n"):
         ops += [{"op": "open_stream", "name": nm}, {"op": "open_stream", "name": nm}, {"op": "fresh_read"}, {"op": "read_to_end"}, {"op": "close"}]
     return {"ver": ver, "maxbuf": maxbuf, "mode": "rw_faults", "streams": streams, "ops": ops}
 
@@ -185,7 +185,8 @@ def rw_workload(ver, maxbuf, variant=0):
           [{"op": "seek", "whence": "start", "d": 100, "sym": ""}, {"op": "position"}, w(50), {"op": "position"}] + FL + \
           [{"op": "read", "n": 2000}, {"op": "position"}, w(10), {"op": "position"}] + FL
     if variant == 1:
-        ops += [{"op": "set_len", "n": 6000}, {"op": "position"}] + FL + [{"op": "set_len", "n": 100}, {"op": "position"}] + FL
+        ops += [{"op": "set_len", "n": 6000}, {"op": "position"}, {"op": "set_len", "n": 6000}, {"op": "position"}] + FL + \
+               [{"op": "set_len", "n": 100}, {"op": "position"}, {"op": "set_len", "n": 100}, {"op": "position"}] + FL
     ops += [{"op": "close"}, {"op": "open_stream", "name": "bar"}, {"op": "open_stream", "name": "bar"},
             {"op": "seek", "whence": "end", "d": 0, "sym": ""}, {"op": "position"}, w(2000), {"op": "position"}] + FL + \
            [{"op": "cf_flush"}, {"op": "close"}]
